@@ -26,6 +26,16 @@ def design(prop, tier):
     return states, trans, cfgs
 
 
+def design_unbounded():
+    """Apalache: the inductive invariant of the counting skeleton PipelineInt.tla (which Pipeline.tla refines: property RefinesInt of
+    every MC_Pipeline_*.cfg) for tables of ANY length, every channel capacity and every set of up to four targets."""
+    obl = [("Init", "IndInv", 0), ("IndInit", "IndInv", 1), ("IndInit", "Complete", 0), ("IndInit", "NoSendOnClosed", 0)]
+    return {"module": "PipelineInt.tla", "refined_by": "Pipeline.tla (TLC: RefinesInt, IntInvHolds in every MC_Pipeline_*.cfg)",
+            "obligations": ["Init => IndInv", "IndInv /\\ Next => IndInv'", "IndInv => Complete", "IndInv => NoSendOnClosed"],
+            "bounds": "none on the number of features or the channel capacity; every set of targets within 1..4",
+            "wall_s": [vlib.run_apalache("PipelineInt", i, v, k, cinit="CInit") for i, v, k in obl]}
+
+
 def split_runs(lines):
     runs, cur = [], []
     for ln in lines:
@@ -83,6 +93,7 @@ def run_pipe_property(prop, tier):
     t0 = time.time()
     v = vlib.Verdict(prop)
     dstates, dtrans, cfgs = design(prop, tier)
+    unbounded = design_unbounded()
     drv = vlib.build_harness()
     maxn = 40 if tier == "quick" else 200
     nruns = 150 if tier == "quick" else 1500
@@ -116,7 +127,7 @@ def run_pipe_property(prop, tier):
         "states": dstates + tstates, "transitions": dtrans + tstates,
         "traces_validated_against_impl": total_runs,
         "samples": [json.loads(x) for x in lines[:12]],
-        "design_models": cfgs, "design_states": dstates, "trace_events": len(lines), "runs": total_runs,
+        "design_models": cfgs, "design_states": dstates, "apalache": unbounded, "trace_events": len(lines), "runs": total_runs,
         "runs_accepted": ok_runs, "tlc_schedules_enforced_on_the_real_pipeline": sched_n,
         "real_geopackage_runs_under_race_detector": gp,
         "empty_streams": sum(1 for h in heads if h["n"] == 0),
